@@ -20,7 +20,7 @@ def record(ctx, nproc, n):
 
     def one(k):
         out = os.path.join(ctx.tmp, "life_%d.ndjson" % k)
-        p = subprocess.run([exe, "life", "--n", str(n), "--seed", str(ctx.seed * 100 + k), "--out", out], capture_output=True, text=True,
+        p = subprocess.run([exe, "life", "--n", str(n), "--seed", str(ctx.seed * 100 + k), "--out", out, "--traces", out + ".traces"], capture_output=True, text=True,
                            timeout=3000, env=common.goenv(), cwd=ctx.tmp)
         if p.returncode != 0:
             raise common.Inconclusive("vh life failed: " + (p.stderr or p.stdout)[-1500:])
@@ -28,9 +28,11 @@ def record(ctx, nproc, n):
     with ThreadPoolExecutor(max_workers=nproc) as ex:
         outs = list(ex.map(one, range(nproc)))
     allobs = os.path.join(ctx.tmp, "life_all.ndjson")
-    with open(allobs, "w") as f:
+    with open(allobs, "w") as f, open(allobs + ".traces", "w") as tf:
         for o in outs:
             f.write(open(o).read())
+            if os.path.exists(o + ".traces"):
+                tf.write(open(o + ".traces").read())
     return allobs
 
 
@@ -54,7 +56,14 @@ def run(ctx):
         distinct.add((d["role"], tuple((o["g"], o["op"], o["res"]) for o in d["ops"])))
         if i % max(1, len(lines) // 3) == 0 and len(samples) < 3:
             samples.append(d)
+    # model-level binding: the scenario-wide event log of every random history is validated as a behaviour of impl/Connection
+    ntr, trej, tstates = validate_traces(ctx, allobs + ".traces")
     groups = {}
+    for tr, hw in trej:
+        nxt = tr["events"][hw] if hw < len(tr["events"]) else None
+        sig = "c10:trace:%s:%s" % (tr["role"], ("%s-%s-%s" % (nxt["k"], nxt["op"], nxt["res"])) if nxt else "final")
+        g = groups.setdefault(sig, dict(n=0, first=dict(t="lifetrace", id=tr["id"], role=tr["role"], matched_prefix=hw, next_event=nxt, before=tr["events"][max(0, hw - 8):hw]), clause="TraceConnection"))
+        g["n"] += 1
     for (ln, text, why) in res["rejections"]:
         d = json.loads(text)
         for cl in (why or "").split("_"):
@@ -64,17 +73,21 @@ def run(ctx):
     for sig, g in sorted(groups.items()):
         d = g["first"]
         brief = {k: d[k] for k in d if k != "ops"}
+        if g["clause"] == "TraceConnection":
+            ctx.violation("event log of a concurrent history is not a behaviour of impl/Connection (%s), %d history(ies): %s" % (sig, g["n"], common.short(d, 700)),
+                          dict(binding="B3 trace validation (TraceConnection)", signature=sig, occurrences=g["n"], history=d))
+            continue
         ctx.violation("lifecycle history rejected by prop/Lifecycle clause %s (%s), %d history(ies): %s" % (g["clause"], sig, g["n"], common.short(brief, 500)),
                       dict(binding="B2 random concurrent histories + acceptor", signature=sig, clause=g["clause"], occurrences=g["n"], history=d))
-    ctx.cov.update(states=mc["distinct"] + live["distinct"], transitions=mc["generated"] + live["generated"],
-                   traces_validated_against_impl=len(lines), evaluations=nops, distinct_nontrivial=len(distinct),
+    ctx.cov.update(states=mc["distinct"] + live["distinct"] + tstates, transitions=mc["generated"] + live["generated"],
+                   traces_validated_against_impl=len(lines), model_level_traces=ntr, evaluations=nops, distinct_nontrivial=len(distinct),
                    rule="one trace = one random concurrent API history + audit; one evaluation = one API call; distinct = distinct (role, sequence of "
                         "(goroutine, call, result)); every history ends with the Close / leak / probe / re-Open audit",
                    model=dict(module="impl/Connection.tla", safety_cfg="MC_Connection.cfg (2 callers, 4 ops, 4 epochs, 1 peer drop)",
                               safety_states=mc["distinct"], liveness_cfg="MC_Connection_live.cfg", liveness_states=live["distinct"],
                               invariants="CloseLeavesNothing OneLiveGeneration RecoveryPending CloseOnlyWaitsForLibrary NoReconnectAfterClose OpenWhileOpenNoEffect CloseTerminates",
                               as_found_variant="CloseOnlyWaitsForLibrary %s with HoldLockWhileWaiting=TRUE (finding F6, fixed)" % ("violated" if found["invariant"] else "not violated")),
-                   op_results=kinds, exhaustive=False, samples=samples, checker_cmd="tlc Connection (3 cfgs); vh life x6; tlc OracleLifecycle")
+                   op_results=kinds, exhaustive=False, samples=samples, checker_cmd="tlc Connection (3 cfgs); vh life x6; tlc OracleLifecycle; tlc TraceConnection per history")
     ctx.assumptions += ["handlers return; close timeout 300 ms, slack 150 ms + measured jitter",
                         "the goroutine audit looks for frames of github.com/arloliu/go-secs/v2 in runtime.Stack after the final Close (one scenario at a time per process)",
                         "HSMS-SS transport; SECS-I lifecycle shares hsms/connection_lifecycle.go and is exercised by C17/C18 scenarios only"]
@@ -89,4 +102,73 @@ def selftest(ctx):
     res = common.oracle_pass(ctx, allobs, "OracleLifecycle", nchunks=1)
     got = {r[0]: r[2] for r in res["rejections"]}
     common.log("rejections:", got)
-    return "LifeCloseLeavesNothing" in got.get(1, "") and "LifeCloseBounded" in got.get(2, "")
+    ok1 = "LifeCloseLeavesNothing" in got.get(1, "") and "LifeCloseBounded" in got.get(2, "")
+    big = record(ctx, 2, 12)
+    n0, rej0, _ = validate_traces(ctx, big + ".traces")
+    n1, rej1, _ = validate_traces(ctx, big + ".traces", mutate=mutate_traces)
+    common.log("model-level traces: unmutated %d (%d rejected); mutated %d (%d rejected)" % (n0, len(rej0), n1, len(rej1)))
+    return ok1 and n0 > 10 and not rej0 and n1 > 5 and len(rej1) == n1
+
+
+def validate_traces(ctx, path, mutate=None):
+    """One depth-first TLC run of trace/TraceConnection per recorded lifetrace line. Returns (n, rejected[(trace, highwater)], states)."""
+    import re
+    from concurrent.futures import ThreadPoolExecutor
+    traces = [json.loads(l) for l in open(path) if l.strip()]
+    traces = [t for t in traces if not any(e["k"] == "ret" and (e["res"] in ("hung", "close-timeout") or e["res"].startswith("other:")) for e in t["events"])]
+    if mutate:
+        traces = mutate(traces)
+    work = common.stage_spec(os.path.join(ctx.tmp, "spec-trace-conn"))
+
+    def one(it):
+        i, tr = it
+        f = os.path.join(ctx.tmp, "conntr_%d.ndjson" % i)
+        with open(f, "w") as fh:
+            fh.write(json.dumps(tr) + "\n")
+        r = common.run_tlc(work, "TraceConnection", cfg="TraceConnection.cfg", workers=1, env={"VERIF_IN": f}, timeout=900, xss="64m", deque=True,
+                           heap="1g -XX:ActiveProcessorCount=2 -XX:TieredStopAtLevel=1")
+        os.unlink(f)
+        if r["invariant"] == "NotAccepted":
+            return (tr, None, r["distinct"])
+        if not r["ok"]:
+            raise common.Inconclusive("TraceConnection failed on a trace: %s\n%s" % (r["error"], r["out"][-2000:]))
+        hw = [int(m.group(1)) for m in re.finditer(r'<<"HW", (\d+), \d+>>', r["out"])]
+        return (tr, max(hw) if hw else 0, r["distinct"])
+
+    with ThreadPoolExecutor(max_workers=12) as ex:
+        results = list(ex.map(one, enumerate(traces)))
+    return len(traces), [(tr, hw) for (tr, hw, _) in results if hw is not None], sum(s for (_, _, s) in results)
+
+
+def mutate_traces(traces):
+    out = []
+    for k, tr in enumerate(traces):
+        tr = json.loads(json.dumps(tr))
+        evs = tr["events"]
+        kind = k % 4
+        if kind == 0:      # an Open on an open connection reported as a success
+            i = next((i for i, e in enumerate(evs) if e["k"] == "ret" and e["res"] == "already-open"), None)
+            if i is None:
+                continue
+            evs[i]["res"] = "nil"
+        elif kind == 1:    # a successful Open without any Start of the library
+            i = next((i for i, e in enumerate(evs) if e["k"] == "ret" and e["op"].startswith("Open") and e["res"] == "nil"), None)
+            if i is None:
+                continue
+            j = max((j for j in range(i) if evs[j]["k"] == "start-ok"), default=None)
+            if j is None:
+                continue
+            del evs[j]
+        elif kind == 2:    # the library dials / listens again after the last Close returned
+            i = max((i for i, e in enumerate(evs) if e["k"] == "ret" and e["op"] == "Close" and e["res"] == "nil"), default=None)
+            if i is None or any(e["k"] == "call" for e in evs[i + 1:]):
+                continue
+            evs.insert(i + 1, dict(k="start-ok", g=0, c="c0", op="", res=""))
+        else:              # Close of an opened connection reports not-open
+            i = next((i for i, e in enumerate(evs) if e["k"] == "ret" and e["op"] == "Close" and e["res"] == "nil"), None)
+            if i is None:
+                continue
+            evs[i]["res"] = "not-open"
+        tr["mut"] = kind
+        out.append(tr)
+    return out
